@@ -9,6 +9,7 @@ import (
 	"fmt"
 	"os"
 	"sync"
+	"syscall"
 
 	"github.com/RoaringBitmap/roaring"
 	segment "github.com/blugelabs/bluge_segment_api"
@@ -18,6 +19,7 @@ import (
 // Ctx owns the temp files of one case.
 type Ctx struct {
 	files []*os.File
+	maps  [][]byte
 }
 
 var tmpDirOnce sync.Once
@@ -39,6 +41,10 @@ func scratchDir() string {
 }
 
 func (c *Ctx) Close() {
+	for _, m := range c.maps {
+		_ = syscall.Munmap(m)
+	}
+	c.maps = nil
 	for _, f := range c.files {
 		f.Close()
 		os.Remove(f.Name())
@@ -151,6 +157,30 @@ func (c *Ctx) LoadFile(b []byte) (seg segment.Segment, err error) {
 			return e
 		}
 		seg, e = ice.Load(data)
+		return e
+	})
+	return seg, err
+}
+
+// LoadMmap loads the segment from a READ-ONLY memory mapping of a temp file
+// holding b: any write of the library into the segment's own memory faults
+// (safely turns the fault into a reported panic).
+func (c *Ctx) LoadMmap(b []byte) (seg segment.Segment, err error) {
+	if len(b) == 0 {
+		return LoadMem(b)
+	}
+	f, err := c.writeTemp(b)
+	if err != nil {
+		return nil, fmt.Errorf("INFRA: %v", err)
+	}
+	m, err := syscall.Mmap(int(f.Fd()), 0, len(b), syscall.PROT_READ, syscall.MAP_SHARED)
+	if err != nil {
+		return nil, fmt.Errorf("INFRA: mmap: %v", err)
+	}
+	c.maps = append(c.maps, m)
+	err = safely("Load(read-only mapping)", func() error {
+		var e error
+		seg, e = ice.Load(segment.NewDataBytes(m))
 		return e
 	})
 	return seg, err
